@@ -86,7 +86,10 @@ def script_events(t, modname='vtw.tests', nth=1):
         out = []
         k = 0
         for i in range(nf):
-            out.append(('F', '%s (i=%d)' % (base, k)))
+            if 'subm' in t:
+                out.append(('F', '%s [%s] (i=%d)' % (base, t['subm'], k)))
+            else:
+                out.append(('F', '%s (i=%d)' % (base, k)))
             k += 1
         for i in range(ne):
             out.append(('E', '%s (i=%d)' % (base, k)))
